@@ -19,7 +19,7 @@ def norm_1_2(ctx, rep):
                        'the node rules for an error node without descending, and the invalid-syntax rule reports unless '
                        'the next leaf is an error leaf')
     prog = ctx.prog
-    f = prog.func(ERRORS, 'ErrorFinder.visit_leaf')
+    f = ctx.view(prog.func(ERRORS, 'ErrorFinder.visit_leaf'), keep=('_add_syntax_error', '_add_indentation_error'))
     cfg = ctx.cfg(f)
     tests = [n for n in cfg.nodes if n.kind == 'test' and norm(n.ast) == "leaf.type == 'error_leaf'"]
     if len(tests) != 1:
